@@ -61,7 +61,8 @@ SPEC = dict(
         "homogeneity of UPGrad/DualProj/CAGrad only where sigma_max >= 1.01 norm_eps on both sides (statement's carve-out, 1% guard band for the float32 rounding of sigma_max)",
         "pinv/eigh based aggregators (IMTLG, ConFIG, AlignedMTL): homogeneity only on inputs of unambiguous rank = well-conditioned full rank, or exactly singular {-1,0,1} matrices; dense rank-deficient inputs are dropped (counted)",
         "IMTLG homogeneity: well-posed inputs |1^T G^+ d| max d >= 1e-6 (1e-3 in float32) with tolerance amplified by its inverse; exactly stationary inputs are asserted in float64 only (guard-stationary)",
-        "CAGrad homogeneity only on reference-certified non-stationary inputs (its zero-at-stationarity escape is a discontinuity), tolerance 1e-6 s = 100 x Clarabel's 1e-8 (1e-3 s in float32)",
+        "CAGrad homogeneity only on reference-certified non-stationary inputs (its zero-at-stationarity escape is a discontinuity), tolerance 1e-3 s = 10 x sqrt(Clarabel's 1e-8) (observed 1.3e-5 s)",
+        "MGDA homogeneity under argmin ties of its Frank-Wolfe loop (rounding breaks exact ties differently at different scales): the output must be one of the runs obtained by breaking the ties in every possible way (E-choice over a float64 replica of the loop, <= 16 runs, else dropped)",
         "ConFIG homogeneity only where |pinv(units) w| >= 1e-6 |w| (1e-3 in float32): it normalises that vector (exact-zero test), tolerance amplified by the inverse",
         "tolerances relative to s = sigma_max(J): 1e-9 s (float64), 2e-4 s (float32); UPGrad/DualProj float32 1e-3 s (eps32 / reg_eps)",
         "Krum homogeneity under score ties: the output must be the mean of an admissible selection",
@@ -338,6 +339,49 @@ class Facts:
     def min_norm(self):
         return self.get("mn", lambda: math.sqrt(max(0.0, R.min_norm_point(self.Jn)[2])))
 
+    def mgda_candidates(self, thr, epsilon=1e-3, max_iters=100, cap=16):
+        """Outputs (scale 1) of every run of MGDA's Frank-Wolfe loop that differs only in how argmin ties (and a borderline
+        early stop) are broken; ties = entries within ``thr`` of the minimum on the normalised Gramian. Rounding breaks exact
+        ties differently at different scales, so each of them is a correct answer. Enumerated with the E-choice explorer;
+        None when more than ``cap`` runs would be needed (the case is then dropped)."""
+        from mc.explorer import explore
+
+        def g():
+            G = self.Jn @ self.Jn.T
+            m = self.m
+
+            def run(ch):
+                alpha = np.ones(m) / m
+                for _ in range(max_iters):
+                    ga = G @ alpha
+                    tied = [i for i in range(m) if ga[i] <= ga.min() + thr]
+                    t = tied[ch.choose(len(tied), "argmin")] if len(tied) > 1 else tied[0]
+                    a, b, c = float(alpha @ G[:, t]), float(alpha @ ga), float(G[t, t])
+                    if c <= a:
+                        gamma = 1.0
+                    elif b <= a:
+                        gamma = 0.0
+                    else:
+                        gamma = (b - a) / (b + c - 2 * a)
+                    e = np.zeros(m)
+                    e[t] = 1.0
+                    alpha = (1 - gamma) * alpha + gamma * e
+                    stop = gamma < epsilon
+                    if abs(gamma - epsilon) <= thr:
+                        stop = bool(ch.choose(2, "stop"))
+                    if stop:
+                        break
+                return alpha
+
+            outs = []
+            for k, (_, alpha) in enumerate(explore(run, max_executions=cap + 1)):
+                if k >= cap:
+                    return None
+                outs.append(alpha @ self.Jd)
+            return outs
+
+        return self.get(("mgda", thr), g)
+
     def krum_admissible(self, f, k, margin):
         """All k-subsets that are admissible selections when scores closer than ``margin`` (relative to s) count as tied."""
 
@@ -433,7 +477,7 @@ def _scale_one(cfg, J, J0, F, dtype, res):
                     res["dropped"] += 1
                     res["counters"]["drop_cagrad_stationary"] += 1
                     continue
-                tol = (1e-6 if dtype == "float64" else 1e-3) * s
+                tol = 1e-3 * s  # Clarabel stops at 1e-8 on the objective; the minimiser is only sqrt(1e-8) = 1e-4 accurate (x 10)
             if name in ("IMTLG", "AlignedMTL"):
                 if F.rows_rank_class(dtype) == "ambiguous":
                     stable = False
@@ -473,6 +517,18 @@ def _scale_one(cfg, J, J0, F, dtype, res):
                     res["counters"]["imtlg_zero_output"] += 1
                     res["viol"].append(dict(sig=f"homogeneity:IMTLG:guard-zero-output:{dtype}:scale={_fmt(t)}", msg=desc[:500]))
                     continue
+            if name == "MGDA":
+                cands = F.mgda_candidates(1e-4 if dtype == "float32" else 1e-9)
+                if cands is None:
+                    stable = False
+                    res["dropped"] += 1
+                    res["counters"]["drop_mgda_too_many_tie_branches"] += 1
+                    continue
+                if len(cands) > 1:
+                    # argmin ties in the Frank-Wolfe loop: every tie-breaking is a correct answer, on both sides
+                    stable = False
+                    err = max(min(float(np.abs(v - c).max()) for c in cands) for v in (xt, x0))
+                    res["counters"]["mgda_tied"] += 1
             if name == "Krum":
                 agg_w = agg.weighting
                 adm = F.krum_admissible(agg_w.n_byzantine, agg_w.n_selected, 1e-3 if dtype == "float32" else 1e-6)
